@@ -12,7 +12,10 @@
    implementation (sibling contents re-read after follow-up operations, std in lock-step) but
    not proved. *)
 From Coq Require Import List Arith Permutation.
-From BS Require Import Colls CollsProofs Parts PartsProofs SplitCap SplitCapProofs.
+From Coq Require Import ZArith.
+From BS Require Import Colls CollsProofs Parts PartsProofs SplitCap SplitCapProofs SplitRefine.
+From BS Require Word.
+From BS.gen Require SplitSites SplitFacts.
 Import ListNotations.
 
 Theorem C16_split_off_code_spec : forall (A : Type) (l : list A) a b, a <= b <= length l ->
@@ -144,6 +147,34 @@ Theorem C16_flatten_window_scales :
   wlen f = wlen w * n /\ wcap f = wcap w * n /\ woff f = woff w * n /\ wlen f <= wcap f.
 Proof. exact flatten_window_scales. Qed.
 
+(* the window arithmetic of the CURRENT FixedBumpVec::split_off (BumpVec::split_off wraps it), cut out branch by branch and
+   translated on every run (gen/SplitSites.v, gen/SplitFacts.v): in the two interior branches - the ones that rotate - the
+   offsets, lengths and capacities of both parts, the side `self` keeps and the rotation are SplitCap.split_off_windows
+   (SplitRefine.v; the two boundary branches likewise: split_off_tail_refines, split_off_front_refines) *)
+Theorem C16_source_split_off_windows_head_short :
+  forall (len cap a b : nat),
+  (0 < a)%nat -> (a < b)%nat -> (b < len)%nat -> (len <= cap)%nat -> (a < len - b)%nat ->
+  let '(keep, off) := split_off_windows len cap a b in
+  SplitFacts.so_headshort_self_keeps_lhs = false /\ SplitFacts.so_headshort_rotation_ok = true /\ SplitFacts.so_interior_defs_ok = true /\
+  woff off = 0%nat /\ SplitSites.so_headshort_lhs_len (Z.of_nat a) (Z.of_nat b) = Word.Ok (Z.of_nat (wlen off)) /\
+  SplitSites.so_headshort_lhs_cap (Z.of_nat a) (Z.of_nat b) = Word.Ok (Z.of_nat (wcap off)) /\
+  SplitSites.so_headshort_rhs_off (Z.of_nat a) (Z.of_nat b) = Word.Ok (Z.of_nat (woff keep)) /\
+  SplitSites.so_headshort_rhs_len (Z.of_nat a) (Z.of_nat b) (Z.of_nat len) = Word.Ok (Z.of_nat (wlen keep)) /\
+  SplitSites.so_headshort_rhs_cap (Z.of_nat a) (Z.of_nat b) (Z.of_nat cap) = Word.Ok (Z.of_nat (wcap keep)).
+Proof. exact split_off_headshort_refines. Qed.
+
+Theorem C16_source_split_off_windows_tail_long :
+  forall (len cap a b : nat),
+  (0 < a)%nat -> (a < b)%nat -> (b < len)%nat -> (len <= cap)%nat -> (len - b <= a)%nat ->
+  let '(keep, off) := split_off_windows len cap a b in
+  SplitFacts.so_taillong_self_keeps_lhs = true /\ SplitFacts.so_taillong_rotation_ok = true /\
+  woff keep = 0%nat /\ SplitSites.so_taillong_lhs_len (Z.of_nat a) (Z.of_nat b) (Z.of_nat len) = Word.Ok (Z.of_nat (wlen keep)) /\
+  SplitSites.so_taillong_lhs_cap (Z.of_nat a) (Z.of_nat b) (Z.of_nat len) = Word.Ok (Z.of_nat (wcap keep)) /\
+  SplitSites.so_taillong_rhs_off (Z.of_nat a) (Z.of_nat b) (Z.of_nat len) = Word.Ok (Z.of_nat (woff off)) /\
+  SplitSites.so_taillong_rhs_len (Z.of_nat a) (Z.of_nat b) = Word.Ok (Z.of_nat (wlen off)) /\
+  SplitSites.so_taillong_rhs_cap (Z.of_nat a) (Z.of_nat b) (Z.of_nat len) (Z.of_nat cap) = Word.Ok (Z.of_nat (wcap off)).
+Proof. exact split_off_taillong_refines. Qed.
+
 Print Assumptions C16_split_off_code_spec.
 Print Assumptions C16_split_at_panics_iff.
 Print Assumptions C16_split_at_spec.
@@ -167,3 +198,5 @@ Print Assumptions C16_split_off_spare_goes_to_the_end.
 Print Assumptions C16_spare_windows_tile.
 Print Assumptions C16_flatten_keeps_count_and_order.
 Print Assumptions C16_flatten_window_scales.
+Print Assumptions C16_source_split_off_windows_head_short.
+Print Assumptions C16_source_split_off_windows_tail_long.
